@@ -306,7 +306,7 @@ impl Ctx {
     pub fn run_one<C: Serialize>(&mut self, label: &str, case: &C, exec: &dyn Fn(&C, &mut CaseLog)) -> Option<Violation> {
         let mut log = CaseLog::default();
         let prop = self.property.clone();
-        *current_case_slot().lock().unwrap() = Some((Instant::now(), serde_json::to_string(case).unwrap_or_default()));
+        *current_case_slot().lock().unwrap() = Some((Instant::now(), json!({"label": label, "case": case}).to_string()));
         let r = guarded(|| exec(case, &mut log));
         *current_case_slot().lock().unwrap() = None;
         if let Err((loc, msg)) = r {
@@ -356,7 +356,7 @@ impl Ctx {
         let last_violation: RefCell<Option<Violation>> = RefCell::new(None);
         let result = runner.run(&strategy, |case| {
             let mut log = CaseLog::default();
-            *current_case_slot().lock().unwrap() = Some((Instant::now(), serde_json::to_string(&case).unwrap_or_default()));
+            *current_case_slot().lock().unwrap() = Some((Instant::now(), json!({"label": label, "case": &case}).to_string()));
             let r = guarded(|| exec(&case, &mut log));
             *current_case_slot().lock().unwrap() = None;
             let mut me = this.borrow_mut();
@@ -414,5 +414,21 @@ impl Ctx {
                 self.res.harness_errors.push(format!("proptest aborted in {label}: {reason}"));
             }
         }
+        self.publish_partial();
     }
+
+    /// Keep a serialised copy of the results so far: the watchdog thread writes it out if a later
+    /// case never returns, so the work already done is not lost from the evidence.
+    pub fn publish_partial(&mut self) {
+        self.res.nontrivial_hashes = self.nontrivial.iter().copied().collect();
+        if let Ok(bytes) = serde_json::to_vec(&self.res) {
+            *partial_result_slot().lock().unwrap() = Some(bytes);
+        }
+        self.res.nontrivial_hashes.clear();
+    }
+}
+
+pub fn partial_result_slot() -> &'static Mutex<Option<Vec<u8>>> {
+    static SLOT: Mutex<Option<Vec<u8>>> = Mutex::new(None);
+    &SLOT
 }
